@@ -324,6 +324,7 @@ func (p *Pool) stats() PoolStats {
 		ps.St.Merges += s.Merges
 		ps.St.FastImplied += s.FastImplied
 		ps.St.FastForks += s.FastForks
+		ps.St.Kills += s.Kills
 		ps.SolverS += resp.SolverS
 		for _, f := range resp.Funcs {
 			fs[f] = true
